@@ -267,6 +267,12 @@ class is_flag_active_visitor<Flag, flag_and>""")]),
         {
             m_history.on_entry(self(), event);
         }""")]),
+ dict(name='revert-d14-back11-deferred-key-with-cv', prop='C18', rule='C18.cv-key', edits=[('include/boost/msm/back11/metafunctions.hpp', """    typedef typename ::boost::mpl::find<typename State::deferred_events,
+                                        typename ::boost::remove_cv<Event>::type>::type found;""", """    typedef typename ::boost::mpl::find<typename State::deferred_events,Event>::type found;""")]),
+ dict(name='revert-d14-reported-by-C05', prop='C05', rule='C05.default-cell', edits=[('include/boost/msm/back11/metafunctions.hpp', """    typedef typename ::boost::mpl::find<typename State::deferred_events,
+                                        typename ::boost::remove_cv<Event>::type>::type found;""", """    typedef typename ::boost::mpl::find<typename State::deferred_events,Event>::type found;""")]),
+ dict(name='revert-d15-back11-internal-table11', prop='C01', rule='C01.plan', edits=[('include/boost/msm/back11/metafunctions.hpp', """    typedef typename ::boost::fusion::result_of::as_vector<typename StateType::internal_transition_table>::type composite_table;""", """    typedef typename StateType::internal_transition_table11 composite_table;"""),
+      ('include/boost/msm/back11/metafunctions.hpp', """    typedef typename ::boost::fusion::result_of::as_vector<typename StateType::internal_transition_table>::type type;""", """    typedef typename StateType::internal_transition_table11 type;""")]),
  # ---- behaviour-preserving edits: the checks must stay silent
  dict(name='refactor-rename-local', prop='C02', refactor=True, edits=[(B, """            HandledEnum res = ROW::action_call(fsm,evt,
                              ::boost::fusion::at_key<current_state_type>(fsm.m_substate_list),
